@@ -34,10 +34,15 @@ func rulePileMerge(c *Ctx, rule string) {
 	merge := c.fn("align/pals", "(*Piler).merge")
 	var query, insert *ssa.Call
 	var deletes []*ssa.Call
+	viaGet := false
 	for _, b := range merge.Blocks {
 		for _, ins := range b.Instrs {
 			if x := treeCall(ins, "DoMatching"); x != nil {
 				query = x
+			}
+			// the matches may also be fetched as a slice (t.Get(q)) and absorbed in a plain loop
+			if x := treeCall(ins, "Get"); x != nil && query == nil {
+				query, viaGet = x, true
 			}
 			if x := treeCall(ins, "Insert"); x != nil {
 				insert = x
@@ -48,31 +53,40 @@ func rulePileMerge(c *Ctx, rule string) {
 		}
 	}
 	if query == nil {
-		c.und(rule, "pals.(*Piler).merge/query", merge.Pos(), "merge does not query the interval tree with DoMatching")
+		c.und(rule, "pals.(*Piler).merge/query", merge.Pos(), "merge does not query the interval tree with DoMatching or Get")
 		return
 	}
 	// the callback
 	var cb *ssa.Function
-	if ct, ok := query.Call.Args[1].(*ssa.ChangeType); ok {
-		if mc, ok := ct.X.(*ssa.MakeClosure); ok {
+	var e *ssa.Parameter
+	if viaGet {
+		cb = merge
+	} else {
+		if ct, ok := query.Call.Args[1].(*ssa.ChangeType); ok {
+			if mc, ok := ct.X.(*ssa.MakeClosure); ok {
+				cb, _ = mc.Fn.(*ssa.Function)
+			}
+		} else if mc, ok := query.Call.Args[1].(*ssa.MakeClosure); ok {
 			cb, _ = mc.Fn.(*ssa.Function)
 		}
-	} else if mc, ok := query.Call.Args[1].(*ssa.MakeClosure); ok {
-		cb, _ = mc.Fn.(*ssa.Function)
+		if cb == nil || len(cb.Params) != 1 {
+			c.und(rule, "pals.(*Piler).merge/callback", query.Pos(), "the DoMatching callback is not a function literal of one parameter")
+			return
+		}
+		e = cb.Params[0]
 	}
-	if cb == nil || len(cb.Params) != 1 {
-		c.und(rule, "pals.(*Piler).merge/callback", query.Pos(), "the DoMatching callback is not a function literal of one parameter")
-		return
-	}
-	e := cb.Params[0]
 	derivedFromE := func(v ssa.Value) bool {
 		for i := 0; i < 6; i++ {
 			switch x := v.(type) {
 			case *ssa.Parameter:
-				return x == e
+				return e != nil && x == e
 			case *ssa.TypeAssert:
 				v = x.X
 			case *ssa.UnOp:
+				// an element of the slice of matches
+				if ia, ok := x.X.(*ssa.IndexAddr); ok && viaGet && ia.X == ssa.Value(query) {
+					return true
+				}
 				v = x.X
 			case *ssa.FieldAddr:
 				v = x.X
@@ -162,6 +176,14 @@ func rulePileMerge(c *Ctx, rule string) {
 			c.bad(rule, key+k, pos, bad)
 		}
 	}
+	if viaGet {
+		// the slice of matches is the collection; it must be what the deletion loop walks
+		for _, d := range deletes {
+			if len(d.Call.Args) > 1 && derivedFromE(d.Call.Args[1]) {
+				collected = true
+			}
+		}
+	}
 	verdict(collected, "matches-collected", "every matched interval is appended to the list of intervals to replace", "a matched interval is not recorded for replacement: it stays in the tree next to the merged interval, so its features appear in two piles", cb.Pos())
 	verdict(imagesMoved, "images-carried-over", "the images of every matched interval are appended to the merged interval", "the images of the intervals that the merged interval replaces are not carried over: those features belong to no pile afterwards", cb.Pos())
 	verdict(startUpd && endUpd, "span-is-union", "both ends of the merged interval are extended from the matched intervals", "the merged interval's start or end is not extended from the intervals it absorbs: the pile does not cover all its members", cb.Pos())
@@ -212,7 +234,29 @@ func fieldOfAny(v ssa.Value) (string, bool) {
 func rulePileAdd(c *Ctx, rule string) {
 	add := c.fn("align/pals", "(*Piler).Add")
 	merge := c.fn("align/pals", "(*Piler).merge")
-	var lookups []*ssa.Lookup
+	type lookupEv struct {
+		ssa.Instruction
+		Index ssa.Value
+	}
+	// a private helper that looks its parameter up in p.seen and reports whether it is there (isSeen)
+	lookupWrapper := func(g *ssa.Function) int {
+		if g == nil || g.Pkg != add.Pkg || g.Blocks == nil {
+			return -1
+		}
+		for _, b := range g.Blocks {
+			for _, ins := range b.Instrs {
+				if l, ok := ins.(*ssa.Lookup); ok && l.CommaOk && loadOfField(l.X, palsPkg, "Piler", "seen") {
+					for i, prm := range g.Params {
+						if l.Index == ssa.Value(prm) {
+							return i
+						}
+					}
+				}
+			}
+		}
+		return -1
+	}
+	var lookups []lookupEv
 	var updates []*ssa.MapUpdate
 	var merges []*ssa.Call
 	for _, b := range add.Blocks {
@@ -220,7 +264,7 @@ func rulePileAdd(c *Ctx, rule string) {
 			switch x := ins.(type) {
 			case *ssa.Lookup:
 				if x.CommaOk && loadOfField(x.X, palsPkg, "Piler", "seen") {
-					lookups = append(lookups, x)
+					lookups = append(lookups, lookupEv{x, x.Index})
 				}
 			case *ssa.MapUpdate:
 				if loadOfField(x.Map, palsPkg, "Piler", "seen") {
@@ -229,6 +273,9 @@ func rulePileAdd(c *Ctx, rule string) {
 			case *ssa.Call:
 				if x.Call.StaticCallee() == merge {
 					merges = append(merges, x)
+				}
+				if pi := lookupWrapper(x.Call.StaticCallee()); pi >= 0 && pi < len(x.Call.Args) {
+					lookups = append(lookups, lookupEv{x, x.Call.Args[pi]})
 				}
 			}
 		}
@@ -312,7 +359,7 @@ func rulePileAdd(c *Ctx, rule string) {
 	okBefore := len(merges) > 0
 	for _, m := range merges {
 		for _, l := range lookups {
-			if !(l.Block().Dominates(m.Block()) && (l.Block() != m.Block() || instrIndex(l.Block(), l) < instrIndex(m.Block(), m))) {
+			if !(l.Block().Dominates(m.Block()) && (l.Block() != m.Block() || instrIndex(l.Block(), l.Instruction) < instrIndex(m.Block(), m))) {
 				okBefore = false
 			}
 		}
@@ -343,6 +390,8 @@ func rulePileAdd(c *Ctx, rule string) {
 	}
 	if len(merges) == 2 {
 		c.ok(rule, key+"both-features-merged", merges[0].Pos(), "both features of the pair are merged")
+	} else if len(merges) == 1 && mergeLoopsOverBoth(add, merges[0]) {
+		c.ok(rule, key+"both-features-merged", merges[0].Pos(), "merge is called in a loop over an array literal holding both features of the pair")
 	} else {
 		c.bad(rule, key+"both-features-merged", add.Pos(), fmt.Sprintf("Add merges %d feature(s) of the pair, not both", len(merges)))
 	}
@@ -350,7 +399,73 @@ func rulePileAdd(c *Ctx, rule string) {
 
 // swappedKeys: k1 and k2 are loads of two 2-element arrays holding the same
 // two values in opposite order.
+// mergeLoopsOverBoth: the single merge call sits in a loop over a two-element
+// array literal whose elements are the A and the B feature of the pair.
+func mergeLoopsOverBoth(add *ssa.Function, m *ssa.Call) bool {
+	inLoop := false
+	for _, l := range naturalLoops(add) {
+		if l.body[m.Block()] {
+			inLoop = true
+		}
+	}
+	if !inLoop {
+		return false
+	}
+	for _, b := range add.Blocks {
+		for _, ins := range b.Instrs {
+			al, ok := ins.(*ssa.Alloc)
+			if !ok {
+				continue
+			}
+			arr, ok := al.Type().Underlying().(*types.Pointer).Elem().Underlying().(*types.Array)
+			if !ok || arr.Len() != 2 {
+				continue
+			}
+			fields := map[string]bool{}
+			for _, r := range *al.Referrers() {
+				if ia, ok := r.(*ssa.IndexAddr); ok {
+					for _, rr := range *ia.Referrers() {
+						if st, ok := rr.(*ssa.Store); ok {
+							v := st.Val
+							if ld, ok := v.(*ssa.UnOp); ok && ld.Op == token.MUL {
+								v = ld.X
+							}
+							if name, ok := fieldOfAny(v); ok {
+								fields[name] = true
+							}
+						}
+					}
+				}
+			}
+			if fields["A"] && fields["B"] {
+				return true
+			}
+		}
+	}
+	return false
+}
+
 func swappedKeys(k1, k2 ssa.Value) bool {
+	// two results of one helper (fwd, rev := pairKeys(fp)): compare what the helper returns
+	if e1, ok := k1.(*ssa.Extract); ok {
+		if e2, ok := k2.(*ssa.Extract); ok && e1.Tuple == e2.Tuple && e1.Index != e2.Index {
+			if call, ok := e1.Tuple.(*ssa.Call); ok {
+				if g := call.Call.StaticCallee(); g != nil && g.Blocks != nil {
+					all := true
+					n := 0
+					for _, r := range returnsOf(g) {
+						if e1.Index < len(r.Results) && e2.Index < len(r.Results) {
+							n++
+							if !swappedKeys(r.Results[e1.Index], r.Results[e2.Index]) {
+								all = false
+							}
+						}
+					}
+					return n > 0 && all
+				}
+			}
+		}
+	}
 	elems := func(k ssa.Value) (a, b ssa.Value) {
 		u, ok := k.(*ssa.UnOp)
 		if !ok || u.Op != token.MUL {
